@@ -114,7 +114,7 @@ Fixpoint failing_idx {X Y} (ok : X -> Y -> bool) (n : nat) (l1 : list X) (l2 : l
   match l1, l2 with
   | [], [] => []
   | a :: t1, b :: t2 => if ok a b then failing_idx ok (S n) t1 t2 else n :: failing_idx ok (S n) t1 t2
-  | _, _ => [n; 999999%nat]      (* length mismatch *)
+  | _, _ => [n; 9999%nat]      (* length mismatch *)
   end.
 
 (* all entries of a triplet list, row major *)
